@@ -185,12 +185,15 @@ type Engine struct {
 	secs     float64
 	sitePos  map[string]string
 	softs    []string
+	heapIDs  map[string]int
+	noTypeInv bool
+	usedTypeInvs map[string]bool
 }
 
 func newEngine(P *Program, fn *ssa.Function, con *Contract) *Engine {
 	return &Engine{P: P, fn: fn, con: con, declSet: map[string]bool{}, obls: map[string]*Obl{}, maxPaths: 4000,
 		siteOrd: map[string]int{}, usedExterns: map[string]bool{}, usedContracts: map[string]bool{}, havocCalls: map[string]int{},
-		lenFacts: map[string]bool{}, debug: os.Getenv("GOVC_DEBUG") != "", keySort: map[string]string{}, paramVals: map[string]Val{}}
+		lenFacts: map[string]bool{}, debug: os.Getenv("GOVC_DEBUG") != "", keySort: map[string]string{}, paramVals: map[string]Val{}, usedTypeInvs: map[string]bool{}}
 }
 
 func (e *Engine) decl(name, srt string) {
